@@ -153,7 +153,9 @@ class Intervals:
             return None
         op = op.replace("Unchecked", "")
         if op == "Add":
-            return Ival(x.lo + y.lo, x.hi + y.hi)
+            # an in-memory length plus a small constant is still "about the size of an in-memory object"
+            small = lambda v: 0 <= v.lo and v.hi <= 4096
+            return Ival(x.lo + y.lo, x.hi + y.hi, (x.len and small(y)) or (y.len and small(x)))
         if op == "Sub":
             return Ival(x.lo - y.hi, x.hi - y.lo, x.len and y.lo >= 0)
         if op == "Mul":
@@ -492,6 +494,17 @@ class Auditor:
                 return None
             return None
         c = s.call
+        # str positions: slicing / splitting a string at the position str::find (rfind, char_indices ...) returned for that same
+        # string is in range and on a character boundary
+        if c is not None and len(c.args) > 1 and ((s.kind == "index" and "str" in (c.self_ty or "")) or re.search(r"<impl str>::split_at(_mut)?$", c.decl)):
+            from terms import TermBuilder, render
+            tb_ = TermBuilder(body)
+            base_t = render(tb_.term(c.args[0]))
+            idx_t = render(tb_.term(c.args[1]))
+            m_ = re.findall(r"core::str::<impl str>::(?:find|rfind)\(", idx_t)
+            if m_ and ("core::str::<impl str>::find(%s," % base_t in idx_t or "core::str::<impl str>::rfind(%s," % base_t in idx_t) \
+                    and not re.search(r"\b(Add|Sub|Mul|AddWithOverflow|SubWithOverflow)\(", idx_t):
+                return ("index", "position returned by str::find on the same string: in range and on a char boundary")
         if s.kind == "index":
             idx = c.args[1] if len(c.args) > 1 else None
             if idx is None:
